@@ -333,14 +333,15 @@ class MultiStream(Stream):
                 literal = (thermal_condition._T, thermal_condition._P)
             else:
                 literal = (imol._phases, thermal_condition._T, thermal_condition._P)
-            last_literal, last_composition_key = self._property_cache_key
+            property_cache_key = self._property_cache_key
+            last_literal, last_composition_key = property_cache_key
             if literal == last_literal and (composition_key == last_composition_key):
                 if name in property_cache:
                     value = property_cache.get(name)
                     return value * total if flow else value
             else:
                 property_cache.clear()
-            self._property_cache_key = (literal, [i.copy() for i in composition_key])
+            property_cache_key[:] = (literal, [i.copy() for i in composition_key])
             if nophase:
                 calculate = getattr(self.mixture, name)
                 self._property_cache[name] = value = calculate(
@@ -382,7 +383,7 @@ class MultiStream(Stream):
             stream._thermo = self._thermo
             stream._property_cache = {}
             stream.characterization_factors = {}
-            stream._property_cache_key = None, None
+            stream._property_cache_key = [None, None]
             streams[phase] = stream
         return stream
     
